@@ -49,7 +49,35 @@ def cases(draw, tier='quick'):
     spec = draw(C.camxspecs(formats=FORMATS,
                             names=['AVERAGE', 'AVERAGE', 'EMISSIONS',
                                    'EMISSIONS', 'AIRQUALITY', 'INSTANT']))
+    if spec['fmt'] in SHAPE_FORMATS:
+        # a share of opens uses the constructors' default arguments
+        spec['shape'] = draw(st.sampled_from(['both', 'both', 'both', 'none',
+                                              'none', 'rows', 'cols']))
     return spec
+
+
+SHAPE_FORMATS = ('temperature', 'height_pressure', 'humidity',
+                 'vertical_diffusivity', 'one3d')
+
+
+def open_shaped(spec, path, reader):
+    """open with rows/cols as spec['shape'] says: 'both' (explicit), 'none'
+    (constructor defaults), 'rows' / 'cols' (only one given).  wind's memmap
+    reader requires both; height_pressure/Read.py takes them positionally
+    and documents None handling, so None is passed there."""
+    shape = spec.get('shape', 'both')
+    if shape == 'both' or spec['fmt'] not in SHAPE_FORMATS:
+        return C.open_lib(spec, path, reader)
+    MM, RD, WR = C.lib_modules()
+    cls = getattr(MM if reader == 'memmap' else RD, spec['fmt'])
+    kw = {}
+    if shape == 'rows':
+        kw['rows'] = spec['ny']
+    elif shape == 'cols':
+        kw['cols'] = spec['nx']
+    if reader == 'read' and spec['fmt'] == 'height_pressure':
+        return cls(path, kw.get('rows'), kw.get('cols'))
+    return cls(path, **kw)
 
 
 def strategy(tier):
@@ -73,7 +101,7 @@ def observe(spec, path, reader):
     f = None
     try:
         s.stage = 'open'
-        f = C.open_lib(spec, path, reader)
+        f = open_shaped(spec, path, reader)
         s.stage = 'dims'
         for d in list(f.dimensions.keys()):
             s.dims[d] = len(f.dimensions[d])
@@ -129,6 +157,8 @@ def check_case(spec):
         r.label('roll:' + x)
     if spec['step_h'] != 1:
         r.label('step>1h')
+    if fmt in SHAPE_FORMATS:
+        r.label('shape:' + spec.get('shape', 'both'))
     r.nontrivial = bool((nt > 1 and spec['nz'] > 1) or ro)
     raw = C.ref_bytes(spec)
     try:
@@ -264,3 +294,16 @@ known.register('C13-read-wind-recsize', lambda spec, f: (
 known.register('C13-read-met-multiday-step', lambda spec, f: (
     spec['fmt'] in MET and spec.get('step_h', 1) > 24 and
     _read_side(f, spec['fmt'])))
+known.register('C13-read-uamiv-emissions-layers', lambda spec, f: (
+    spec['fmt'] == 'uamiv' and spec.get('name') == 'EMISSIONS' and
+    spec['nz'] > 1 and _read_side(f, 'uamiv')))
+ONE3D = ('humidity', 'vertical_diffusivity', 'one3d')
+known.register('C13-one3d-memmap-one-extent', lambda spec, f: (
+    spec['fmt'] in ONE3D and spec.get('shape') in ('rows', 'cols') and
+    f.clause == 'one-reader-raises' and
+    f.klass == spec['fmt'] + '/memmap' and
+    f.where == 'TypeError@camxfiles/one3d/Memmap.py:__init__'))
+known.register('C13-one3d-default-orientation', lambda spec, f: (
+    spec['fmt'] in ONE3D and spec.get('shape') == 'none' and
+    spec['nx'] * spec['ny'] > 1 and f.clause == 'dims-differ' and
+    f.klass in (spec['fmt'] + '/ROW', spec['fmt'] + '/COL')))
